@@ -42,7 +42,7 @@ def _stack(frames, top=False):
         "root": st.sampled_from([None, "rt", "rt"]),
         "frames": st.lists(frames, min_size=0, max_size=3),
         "leaf": st.sampled_from([None, None, "lf"]),
-        "error": st.sampled_from([None, None, None, None, "single", "group"]),
+        "error": st.sampled_from([None] * 7 + ["single", "group", "raised", "multiline", "group_raised", "chained"]),
     })
 
 
